@@ -19,7 +19,7 @@ pub(crate) struct MemfsFile {
 impl MemfsFile {
     /// Returns the length of the file remaining from the current position
     pub(crate) fn len(&self) -> u64 {
-        self.data.len() as u64 - self.pos
+        (self.data.len() as u64).saturating_sub(self.pos)
     }
 
     /// Attempt to write the data to the data store
@@ -60,7 +60,8 @@ impl Clone for MemfsFile {
 // Implement the Read trait for the MemfsFile
 impl io::Read for MemfsFile {
     fn read(&mut self, buf: &mut [u8]) -> io::Result<usize> {
-        let pos = self.pos as usize;
+        // Clamp the position to the end of the data, a seek may have moved it beyond
+        let pos = cmp::min(self.pos, self.data.len() as u64) as usize;
 
         // Determine max data to read from the file
         let len = cmp::min(buf.len(), self.len() as usize);
